@@ -115,12 +115,12 @@ PROPS = {
         "assumptions": COMMON_ASSUME,
     },
     "C17": {
-        "rules": ["R-SHIFT", "R-SETFIELD", "R-VBYTE", "R-TWINS", "R-MIRROR", "R-EXTENT", "R-ZEROFILL", "R-NARROW"],
+        "rules": ["R-SHIFT", "R-SETFIELD", "R-VBYTE", "R-MIRROR", "R-EXTENT", "R-ZEROFILL", "R-NARROW"],
         "explanation": "For the packed integer array the shift amounts of get_field/set_field/maxVal are evaluated from the source expressions over the whole "
                        "finite domain (width 1..64 x in-word offset 0..63) under the guards that dominate each shift: exact. Save/load agreement and "
                        "allocation extents for LogSequence, DAC_VLS, DAC_BVLS; zero-fill before read-modify-write packing.",
         "decided": ["no shift by >= operand width for any width 1..64 and offset, incl. fields straddling a word (R-SHIFT)",
-                    "LogSequence / DAC_VLS / DAC_BVLS survive save/load structurally (R-MIRROR, R-EXTENT)", "packed arrays are filled before set_field/bitset (R-ZEROFILL)", "VByte encoder/decoder (both copies) agree on group width, mask, terminator bit, threshold (R-VBYTE) and the two copies are structurally identical (R-TWINS)", "set_field clears before it sets (R-SETFIELD)",
+                    "LogSequence / DAC_VLS / DAC_BVLS survive save/load structurally (R-MIRROR, R-EXTENT)", "packed arrays are filled before set_field/bitset (R-ZEROFILL)", "VByte encoder/decoder (both copies) agree on group width, mask, terminator bit and threshold, and no decoder loop bound cuts off the groups a 32-bit value needs (R-VBYTE)", "set_field clears before it sets (R-SETFIELD)",
                     "no save writes a data member through a narrower scalar type than the member has (R-NARROW)"],
         "not_decided": ["round trip of values, DAC level layout, VByte codec value round trip (value-level)"],
         "assumptions": COMMON_ASSUME,
